@@ -24,7 +24,7 @@ J gen_tasks(const std::string& prop, uint64_t run_seed, const std::string& tier)
     J tp;
     if (kind < 6) { tp = gen_hist(kind < 3 ? "C04" : kind < 5 ? "C03" : "C11", ts, tier); tp.set("w", "hist"); if (tp.at("ops").size() > 60) { J o = J::arr(); for (size_t i = 0; i < 60; i++) o.push(tp.at("ops")[i]); tp.set("ops", o); } }
     else if (kind < 8) { tp = gen_stream("C09", ts, tier); tp.set("w", "stream"); }
-    else { tp = gen_seq("C05", ts, tier); tp.set("w", "seq"); }
+    else { tp = gen_seq("C05lite", ts, tier); tp.set("w", "seq"); }   // no chains nested up to the decoder limit inside tasks (they dominate the run time)
     tasks.push(tp);
   }
   plan.set("tasks", tasks);
@@ -74,12 +74,12 @@ void exec_tasks(const J& plan) {
     combined = hash_comb(combined, g_logs[i + 1].digest);
     if (g_logs[i + 1].digest != solo[i]) fail("C17", "task-result-differs-from-solo-run", fmt("task %zu (%s workload) produced a different event log under interleaving than when run alone (%llu vs %llu events)", i + 1, jt[i].gets("w").c_str(), (unsigned long long)g_logs[i + 1].count, (unsigned long long)0));
   }
-  if (!failed() && sr.budget_exceeded) fail("C17", "scheduling-step-budget", "scheduling point budget exceeded");
+  if (sr.budget_exceeded) stat_add("runs_over_scheduling_point_budget");   // a limit of the harness, not a verdict: the rest of the run went unscheduled
   if (!failed() && sa_live_count() != 0) fail("C17", "interleaved-run-leaves-memory", fmt("%llu block(s) remain after all tasks finished", (unsigned long long)sa_live_count()));
   sa_check_integrity();
   g_logs[0].ev("sched", sr.schedule_hash, sr.switches, combined);
   g_run.prop = prop;
-  g_run.nontrivial = sr.switches_inside_call >= 1; g_run.distinct_key = hash_comb(sr.schedule_hash, n) | 1;
+  g_run.nontrivial = sr.switches_inside_call >= 1 && !sr.budget_exceeded; g_run.distinct_key = hash_comb(sr.schedule_hash, n) | 1;
   stat_add("tasks", n); stat_add("sched_points_alloc", sr.points[SP_ALLOC]); stat_add("sched_points_free", sr.points[SP_FREE]); stat_add("sched_points_callback", sr.points[SP_CALLBACK]);
   stat_add("sched_points_file", sr.points[SP_FILE]); stat_add("sched_points_api", sr.points[SP_API]); stat_add("switches", sr.switches); stat_add("switches_inside_library_call", sr.switches_inside_call);
   stat_add(prot ? "runs_with_library_statics_write_protected" : "runs_without_statics_protection");
